@@ -63,6 +63,25 @@ def gen_program(rng, allow_raise):
     return [('ctx', gen_name(rng), gen_attrs(rng), body)]
 
 
+def gen_text_program(rng):
+    """elements and lines of text (write_line with do_escape, indented or not); two lines of text never follow each other"""
+    def body(depth):
+        out = []
+        for _ in range(rng.randint(1, 4)):
+            r = rng.random()
+            if r < 0.45 and (not out or out[-1][0] != 'text'):
+                t = gen_text(rng, allow_cr=False).strip(' \n\t')
+                if t:
+                    out.append(('text', t, rng.random() < 0.5))
+                    continue
+            if depth > 0 and r < 0.7:
+                out.append(('ctx', gen_name(rng), gen_attrs(rng), body(depth - 1)))
+            else:
+                out.append(('leaf', gen_name(rng), gen_attrs(rng), None))
+        return out
+    return [('ctx', gen_name(rng), gen_attrs(rng), body(rng.choice([1, 2, 3])))]
+
+
 def gen_malformed(rng):
     """explicit push/pop, possibly unbalanced (pop on an empty stack raises IndexError)"""
     prog = []
@@ -102,6 +121,8 @@ def run_impl(prog, whitespace=True):
             w.write_tag(st[1], list(st[2]), st[3])
         elif k == 'comment':
             w.write_comment(st[1])
+        elif k == 'text':
+            w.write_line(st[1], indent=st[2], do_escape=True)
         elif k == 'ctx':
             with w.tagcontext(st[1], list(st[2])):
                 for s in st[3]:
@@ -159,6 +180,8 @@ def intended(prog):
             ev.append(('end', st[1]))
         elif k == 'comment':
             ev.append(('comment', ' ' + st[1] + ' '))
+        elif k == 'text':
+            ev.append(('text', st[1], 'line'))
         elif k == 'ctx':
             ev.append(('start', st[1], {n: v for n, v in st[2] if v is not None}))
             try:
@@ -183,6 +206,12 @@ def same_document(got, want):
     for w in want:
         while i < len(got) and got[i][0] == 'text' and w[0] != 'text' and got[i][1].strip(' \n') == '':
             i += 1
+        if len(w) == 3 and w[0] == 'text':
+            # a line of text (write_line): the writer's own indentation and line end surround it
+            if i >= len(got) or got[i][0] != 'text' or got[i][1].strip(' \n') != w[1]:
+                return False
+            i += 1
+            continue
         if i >= len(got) or tuple(got[i]) != tuple(w):
             return False
         i += 1
@@ -224,6 +253,21 @@ def main(tier, seed):
             progs.append(('abort', gen_program(rng, True)))
         else:
             progs.append(('malformed', gen_malformed(rng)))
+    # lines of text between elements: judged by the independent reader only (the model has no text statement)
+    for i in range(n // 4):
+        prog = gen_text_program(rng)
+        for ws in (True, False):
+            try:
+                xmltext, raised = run_impl(prog, whitespace=ws)
+                got = read_back(xmltext)
+            except Exception as e:      # noqa
+                ck.failing_input('output with lines of text is not well-formed XML%s: %s' % ('' if ws else ' (whitespace disabled)', e),
+                                 dict(program=prog, whitespace=ws))
+                continue
+            ck.count_case(dict(kind='text', program=prog, whitespace=ws), nontrivial=len(xmltext) > 60, kind='text' + ('' if ws else '/nows'))
+            if not same_document(got, intended(prog)):
+                ck.failing_input('document read back differs from what was written (lines of text%s)' % ('' if ws else ', whitespace disabled'),
+                                 dict(program=prog, whitespace=ws), detail=dict(xml=xmltext, got=got[:40], want=intended(prog)[:40]))
     results = [run_impl(p) for _, p in progs]
 
     # executable property on the implementation's own output (expat as independent reader)
